@@ -365,3 +365,23 @@ def ok_spec(spec):
             if not any(l["dst"] == i for l in spec["links"]):
                 return False
     return all(0 <= l["src"] < n and 0 <= l["dst"] < n for l in spec["links"])
+
+
+def gen_mixed_delay_chain(rng):
+    """SRC >> {DelayFixed, DelayToPull in either order, optionally a Scale} >> MID >> SINK with a slow sink: the
+    delay adapters of one link do not commute, and only a third component further back than the source makes an
+    over-advanced source visible in the update sequence"""
+    d = rng.choice([2, 3, 4, 5])
+    chain = [["dfix", d], ["dpull", rng.choice([1, 1, 2]), rng.choice([0, 0, 1])]]
+    if rng.random() < 0.5:
+        chain.reverse()
+    if rng.random() < 0.3:
+        chain.insert(rng.randint(0, 2), ["scale"])
+    comps = [{"kind": "time", "start": 0, "steps": [rng.choice([3, 4, 5])]},
+             {"kind": "time", "start": 0, "steps": [rng.choice([1, 2, 2, 3])]},
+             {"kind": "time", "start": 0, "steps": [rng.choice([5, 6, 7, 10])]}]
+    links = [{"src": 0, "out": 0, "dst": 1, "ads": chain},
+             {"src": 1, "out": 0, "dst": 2, "ads": [["scale"]] if rng.random() < 0.3 else []}]
+    order = [0, 1, 2]
+    rng.shuffle(order)
+    return {"comps": comps, "links": links, "order": order, "end": rng.randint(20, 40)}
